@@ -157,8 +157,8 @@ class RegRun:
                 self.validated += 1
             heads = [b[0] for b in mblocks]
             for h in heads:
-                r = head_result(h).split(" ")[0:2]
-                r = " ".join(r) if r and r[0] in ("UB",) else (r[0] if r else "")
+                r = head_result(h)
+                if not (r in ("Ok handle", "Ok none", "Ok mesh") or r.startswith("UB")): r = r.split(" ")[0] if r else ""
                 self.results[r] = self.results.get(r, 0) + 1
                 o = head_op(h).split(" ")[0]
                 self.ops[o] = self.ops.get(o, 0) + 1
@@ -348,7 +348,7 @@ COMMON_ASSUMPTIONS = [
 
 def check_C14(ctx):
     fw.coq_prove(ctx, "Props/Properties_C14.v")
-    rr = run_all(ctx, "C14", ["registry", "lifetime", "xmesh", "copy"], 50, 500, 30, 45, c14_nontrivial, {"INV", "UNCH", "IND"})
+    rr = run_all(ctx, "C14", ["registry", "lifetime", "xmesh", "copy"], 200, 900, 30, 45, c14_nontrivial, {"INV", "UNCH", "IND"})
     ctx.cov["rule"] = ("multi-mesh registry scripts from gen/reggen.py (profiles registry / lifetime (all 120 orders of destroy-mesh, drop handle, "
                        "drop its copy, drop persistent handle, clear_all_props, enumerated) / copy / xmesh) + corpus/registry, run in lock step on "
                        "the extracted model and the real library (ASan+UBSan); after every operation the dump of every mesh (n_props, "
@@ -362,7 +362,7 @@ def check_C14(ctx):
 
 def check_C13(ctx):
     fw.coq_prove(ctx, "Props/Properties_C13.v")
-    rr = run_all(ctx, "C13", ["copy", "lifetime"], 90, 700, 30, 45, c13_nontrivial, {"CPY", "IND", "UB"})
+    rr = run_all(ctx, "C13", ["copy", "lifetime"], 350, 1500, 30, 45, c13_nontrivial, {"CPY", "IND", "UB"})
     ctx.cov["rule"] = ("copy / assignment scripts from gen/reggen.py (copy construction, assignment into fresh and used meshes of the same and of "
                        "mixed types polyhedral/tetrahedral/hexahedral, self-assignment, chains; then kernel mutations, writes through handles "
                        "and registry operations on either side, reads through the handles the target had before) + corpus/registry, in lock "
